@@ -30,13 +30,13 @@ def run(tier):
         for kind, strat, sinks in combos:
             scen.append({"kind": kind, "strategy": strat, "sinks": sinks,
                          "workers": rng.choice([4, 6, 8]), "ops": rng.choice([100, 200] if quick else [300, 1000]), "seed": rng.randrange(1 << 30)})
-    seqfam.run_scenarios(res, scen, "TraceLifecycle", spec_dir=PIPE, tag="life", sub="life", timeout=3000, procs=8)   # one scenario at a time per process (goroutine accounting); they mostly wait (settling, grace)
+    seqfam.run_scenarios(res, scen, "TraceLifecycle", spec_dir=PIPE, tag="life", sub="life", timeout=3000, procs=8, crash_is_violation=True)   # one scenario at a time per process (goroutine accounting); they mostly wait (settling, grace)
     # the same free-running product once more with a race-enabled build of the driver: the Go race detector is the oracle for
     # "never race on memory" on the schedules that are replayed (TLC cannot decide a memory-model property)
     rscen = [dict(sc, ops=min(sc.get("ops", 100), 150)) for sc in scen if not sc.get("directed")]
     if quick:
         rscen = rscen[::2]
-    seqfam.run_scenarios(res, rscen, "TraceLifecycle", spec_dir=PIPE, tag="life-race", sub="life", timeout=3000, procs=8, race=True)
+    seqfam.run_scenarios(res, rscen, "TraceLifecycle", spec_dir=PIPE, tag="life-race", sub="life", timeout=3000, procs=8, race=True, crash_is_violation=True)
     res.cov["exhaustive"] = False
     res.cov["distinct_nontrivial"] = len({json.dumps(s, sort_keys=True) for s in scen})
     res.cov["rule"] = ("directed schedules from the TLA+ Lifecycle model (an EmitSync inside its first synchronous sink while Stop runs to completion; Emit/EmitSync/GetStats/TriggerWindow/second Stop after Stop returned) for every query kind x strategy, "
